@@ -67,17 +67,39 @@ def stale_sources(fn: ast.FunctionDef):
                 continue
             # carried use: a read inside the loop reached by a definition that is not from this iteration
             carried_uses = []
+            body_entry0 = [s for s in cfg.succ(header) if cfg.g.edges[header, s].get("label") == "true"]
             for n in inside | {header}:
                 a = cfg.nodes[n].ast
                 if a is None or v not in loads(a):
                     continue
-                reach = rd[n].get(v, set())
-                # definitions reaching through the back edge or from before the loop
-                if any(d not in inside for d in reach) or any(
-                    d in inside and cfg.reachable(d, header, avoiding=set()) and not cfg.dominates(d, n) for d in reach
-                ):
+                # a use-before-definition within one iteration: some way from the start of the body to the use passes no
+                # definition of v in this iteration (then the value comes from an earlier iteration or from before the loop)
+                if n == header or any(b == n or (b not in dnodes and cfg.reachable(b, n, avoiding=set(dnodes))) for b in body_entry0):
                     carried_uses.append(n)
             if not carried_uses:
+                continue
+            # a carried value that is only used after it was validated against the CURRENT loop variable is a cache with a
+            # tag, not a stale source:  `if tag == frame: use(cached)`  (tag and cached value are carried together)
+            lt = sorted(stores(cfg.nodes[header].ast))
+            validated = True
+            for n in carried_uses:
+                okn = False
+                for t in inside:
+                    ta = cfg.nodes[t].ast
+                    if cfg.nodes[t].kind != "test" or ta is None:
+                        continue
+                    from ..cfg import header_expr as _hx
+
+                    tx = _hx(ta)
+                    eqs = [c_ for c_ in ast.walk(tx) if isinstance(c_, ast.Compare) and len(c_.ops) == 1 and isinstance(c_.ops[0], ast.Eq)
+                           and any(norm(x_) in lt for x_ in (c_.left, c_.comparators[0]))] if tx is not None else []
+                    if not eqs:
+                        continue
+                    ts = [s_ for s_ in cfg.succ(t) if cfg.g.edges[t, s_].get("label") == "true"]
+                    if n == t or any(s_ == n or cfg.dominates(s_, n) for s_ in ts):
+                        okn = True
+                validated = validated and okn
+            if validated:
                 continue
             checked += 1
             # is there a way through one iteration that skips every definition?
